@@ -2,6 +2,7 @@
 // @also C08 C09
 // @engine B
 // @entry vfh_C07_unload
+// @shared_state_watch
 // @tier Q
 // @opts presplit=0
 // @reach unload.compared
@@ -14,6 +15,7 @@
 // @also C09
 // @engine B
 // @entry vfh_C07_load_switches
+// @shared_state_watch
 // @tier Q
 // @opts presplit=0
 // @reach load.returned
